@@ -8,9 +8,9 @@ package main
 import (
 	"fmt"
 	"go/constant"
-	"regexp"
 	"go/token"
 	"go/types"
+	"regexp"
 	"strings"
 
 	"golang.org/x/tools/go/ssa"
